@@ -22,7 +22,9 @@ def bodies(rnd, q):
 
 
 def chunk_wire(rnd, body, style):
-    """returns (wire bytes, number of body bytes taken from the wire per htp's message_len definition is measured, not assumed)"""
+    """returns (wire bytes, number of body bytes taken from the wire): the chunked body is every chunk-size line (with extensions), the
+    chunk data, the CRLF after each chunk and the last-chunk line; the trailer section and its closing empty line are read by the header
+    parser and are header bytes, not body bytes (htp.h: message_len is the length of the body as seen over TCP)"""
     if style == "one":
         parts = [body] if body else []
     elif style == "bytes":
@@ -41,7 +43,7 @@ def chunk_wire(rnd, body, style):
         w += size + ext + b"\r\n" + p + b"\r\n"
     w += b"0\r\n"
     trailer = b"X-T: 1\r\n" if style in ("ext", "rand") else b""
-    return w + trailer + b"\r\n"
+    return w + trailer + b"\r\n", len(w)
 
 
 def scenarios(ctx):
@@ -63,8 +65,8 @@ def scenarios(ctx):
                 elif fr == "close":
                     fh = b"\r\n"; wire = body
                 else:
-                    fh = b"Transfer-Encoding: chunked\r\n"; wire = b"\r\n" + chunk_wire(rnd, body, fr)
-                    fh, wire = fh + b"\r\n", wire[2:]
+                    cw, wl = chunk_wire(rnd, body, fr)
+                    fh = b"Transfer-Encoding: chunked\r\n\r\n"; wire = cw
                 if side == "q":
                     qs = b"POST /b HTTP/1.1\r\n" + H + b"Content-Type: application/octet-stream\r\n" + fh + wire + nxt_req
                     ss = b"HTTP/1.1 200 OK\r\nContent-Length: 1\r\n\r\nx" + nxt_res
@@ -76,8 +78,7 @@ def scenarios(ctx):
                     ss = b"HTTP/1.1 200 OK\r\n" + fh + wire + (b"" if last else nxt_res)
                     exp = [("<", 0, body, None)] + ([] if last else [("<", 1, b"ok", 2)]); n = 1 if last else 2
                     lo = len(ss) - (0 if last else len(nxt_res)) - len(wire) - 4; hi = len(ss) - (0 if last else len(nxt_res)) + 4
-                if fr in ("cl", "close"):
-                    exp[0] = (exp[0][0], 0, body, len(body))
+                exp[0] = (exp[0][0], 0, body, len(body) if fr in ("cl", "close") else wl)
                 name = "body/b%d.%s.%s" % (bi, fr, side)
                 cfg = {"wf": 1, "n": n, "cls": "body", "dump": 0}
                 cuts = list(range(max(1, lo), min(hi, len(qs if side == "q" else ss))))
